@@ -204,6 +204,17 @@ func (w *World) InstrPos(in ssa.Instruction) string {
 					break
 				}
 			}
+			if !p.IsValid() {
+				// walk to predecessors / fall back to the function
+				for _, pr := range b.Preds {
+					for k := len(pr.Instrs) - 1; k >= 0 && !p.IsValid(); k-- {
+						p = pr.Instrs[k].Pos()
+					}
+				}
+			}
+			if !p.IsValid() && b.Parent() != nil {
+				p = b.Parent().Pos()
+			}
 		}
 	}
 	return w.Pos(p)
